@@ -3,7 +3,7 @@
    stay Coq datatypes.  No Extract Constant. *)
 From Coq Require Extraction.
 From Coq Require ExtrOcamlBasic.
-From PasfmtVerif Require Import Model.Token Model.Reconstruct Model.Rewriters Model.Toggle Model.Canon Model.DirectiveTree Model.Cursor Model.MLString Model.MLValue Model.Lines Model.Lexer Model.Spacing Model.FmtData Model.Encoding Model.FileIO Model.ParserKernel Model.Generics Model.Requirements Model.WrapApply Model.LineConsolidators Model.Measure Model.ParserGrammar Model.WrapContexts Model.WrapSearch Model.WrapFormat.
+From PasfmtVerif Require Import Model.Token Model.Reconstruct Model.Rewriters Model.Toggle Model.Canon Model.DirectiveTree Model.Cursor Model.MLString Model.MLValue Model.Lines Model.Lexer Model.Spacing Model.FmtData Model.Encoding Model.FileIO Model.ParserKernel Model.Generics Model.Requirements Model.WrapApply Model.LineConsolidators Model.Measure Model.ParserGrammar Model.WrapContexts Model.WrapSearch Model.WrapFormat Model.Format.
 (* join lives in the proofs file of the multi-line string unit; re-stated here for the oracle *)
 Module MLStringJoin.
   Fixpoint join (nl : bytes) (ls : list bytes) : bytes :=
@@ -32,4 +32,6 @@ Extraction "model.ml"
   conddir_lines_singleton no_voided unique_first_tokens lines_cover_nv
   measure_ok token_line_length rendered_cols counter_cols tok_measurable rs_measurable breaks_after_sl
   parse_file_with parse_file_model parsed_token_types
-  olf_model wsettings_of wrap_phase1 wrap_phase2 mk_lviews line_contexts_new tokinfo_of.
+  olf_model wsettings_of wrap_phase1 wrap_phase2 mk_lviews line_contexts_new tokinfo_of
+  format_chain format_trace to_fmt make_formatter_kinds cfg_in_range
+  lex_segments eof_lines_okb.
